@@ -1,6 +1,7 @@
 //! Engine-A properties: C01 and the sequential parts of C05 C10 C11 C12 C13 C14 C16.
 
 use crate::campaign::{replay_seq, run_seq_campaign, SeqCampaign};
+use proptest::strategy::Strategy;
 use crate::env::Tier;
 use crate::ops::{case_strategy, Bias, Case};
 use crate::seq::{self, CaseStats, Failure, Flags, RunOutput};
@@ -9,7 +10,7 @@ fn c01_nt(s: &CaseStats) -> bool {
     s.has("read_offloaded_after_modify") || s.has("error_then_readback")
 }
 fn c05_nt(s: &CaseStats) -> bool {
-    s.has("partition_checked") && s.has("released_multi_block_extent") && s.has("reused_freed_blocks")
+    s.has("partition_checked") && s.has("released_multi_block_extent") && (s.has("reused_freed_blocks") || s.has("partition_after_out_of_space"))
 }
 fn c10_nt(s: &CaseStats) -> bool {
     s.has("layout_nontrivial")
@@ -100,13 +101,13 @@ pub fn campaign(id: &str, tier: Tier) -> SeqCampaign {
             SeqCampaign {
                 property: "C05",
                 level: "exploration",
-                strategy: case_strategy(&bias),
+                strategy: proptest::strategy::Union::new_weighted(vec![(3, case_strategy(&bias)), (2, crate::ops::fill_cycle_strategy(vec![1, 2, 3, 3]))]).boxed(),
                 flags: Flags { results: true, snapshot: true, readback: true, partition: true, ..Flags::default() },
                 owned: vec!["partition", "readback"],
                 cases: tier.pick(900, 8000),
                 shrink_iters: 300,
                 nontrivial: c05_nt,
-                rule: format!("{base_rule}biased to tiny devices (24-80 data blocks), 1-6 block extents, heavy overwrite/delete and frequent flush. After every acknowledged flush the snapshot must partition the data area exactly (live extents in bounds, disjoint, disjoint from free runs, union = data area, free runs merged, usage counter and persisted counters equal the live totals) and every key reads back byte for byte from disk. Non-trivial: a quiescent point after a multi-block extent was released and freed blocks were reused by a new extent."),
+                rule: format!("{base_rule}biased to tiny devices (24-80 data blocks), 1-6 block extents, heavy overwrite/delete and frequent flush. After every acknowledged flush the snapshot must partition the data area exactly (live extents in bounds, disjoint, disjoint from free runs, union = data area, free runs merged, usage counter and persisted counters equal the live totals) and every key reads back byte for byte from disk. Two generators: free-form sequences, and fill cycles (fill past capacity -> flush (OutOfSpace) -> delete part -> flush -> overwrite -> delete everything -> flush: the free pool must be the whole data area -> refill with the first set). Non-trivial: a quiescent point after a multi-block extent was released and either freed blocks were reused by a new extent or an earlier flush had run out of space."),
                 assumptions: vec![ASSUME_CLOCK.into(), "quiescent point = flush() returned Ok on the only application thread".into()],
                 extra: None,
             }
